@@ -851,6 +851,14 @@ def witness(failure, ctx):
     inter = (seeds.inst(71, 1, 0) + seeds.inst(5, 1, *seeds.s("n1")) + seeds.inst(17, 1) + seeds.inst(19, 1) + seeds.inst(71, 2, 0) + seeds.inst(5, 2, *seeds.s("n2"))
              + seeds.inst(17, 2) + seeds.inst(21, 2, 32, 0) + seeds.inst(71, 3, 1, 7) + seeds.inst(5, 3, *seeds.s("n3")) + seeds.inst(21, 3, 32, 1))
     cases.append(("c01-order-interleaved", seeds.to_hex_bytes(seeds.HEADER + inter)))
+    # C01: header: the version word of the input is carried, whatever version it claims (older, newer than the library's, odd)
+    for ver in (0x00000000, 0x00010000, 0x00010300, 0x00010600, 0x00010700, 0x00020000, 0x00ff0100):
+        hv = seeds.HEADER[:1] + [ver] + seeds.HEADER[2:]
+        cases.append(("c01-version-%x" % ver, seeds.to_hex_bytes(hv + seeds.inst(19, 1) + seeds.inst(21, 2, 32, 0))))
+    # C10: a literal of an unknown type is ONE word: two literal words leave a surplus word (rejected), whatever the word count suggests
+    cases.append(("c03-reject-const-unknown-type-two-words", seeds.to_hex_bytes(seeds.HEADER + seeds.inst(43, 1, 2, 7, 0))))
+    cases.append(("c03-reject-const-type-declared-later-two-words", seeds.to_hex_bytes(seeds.HEADER + seeds.inst(43, 1, 2, 7, 0) + seeds.inst(21, 1, 64, 0))))
+    cases.append(("c03-reject-specconst-unknown-type-two-words", seeds.to_hex_bytes(seeds.HEADER + seeds.inst(50, 1, 2, 7, 0))))
     # C01: header: the id bound of the input is carried, whatever ids the module uses (bound too small / zero / huge)
     for bound in (0, 1, 2, 0xffffffff):
         hb = seeds.HEADER[:3] + [bound] + seeds.HEADER[4:]
